@@ -117,7 +117,7 @@ def equivalent_documents(run, doc_in, doc_out, opts, label, rnd, counts, kind):
 def run():
     from vlib import findings
     from monitors import common
-    r = findings.Run("C11")
+    r = findings.Run("C11", level="fault_enumeration")
     quick = common.tier() == "quick"
     rnd = random.Random(common.seed() + 11)
     n_docs = 6 if quick else 40
